@@ -124,6 +124,13 @@ class SocketPort(BaseIOPort):
             raise OSError(err.args[1]) from err
 
     def _close(self):
+        # The socket stays open (and the peer sees no disconnect) until
+        # the file objects made from it are closed as well.
+        for file in [self._rfile, self._wfile]:
+            try:
+                file.close()
+            except OSError:
+                pass
         self._socket.close()
 
 
